@@ -331,6 +331,21 @@ pub fn run_check(spec: &PropSpec, tier: &str, base_seed: u64, threads: usize) ->
             "per_request_set": "4 roles x sum over n=2..4 of n! completion orders x 2^n immediate/deferred masks",
         });
     }
+    if let Some(n) = fam_runs.get("C11X") {
+        let total = crate::families::c11x_total();
+        let le3 = crate::families::c11x_total_le3();
+        ev["coverage"]["history_enumeration"] = json!({
+            "family": "C11X",
+            "points_executed": n,
+            "points_in_the_enumeration": total,
+            "points_covering_every_history_of_length_le_3": le3,
+            "all_histories_of_length_le_3_executed": *n >= le3,
+            "all_histories_of_length_le_4_executed": *n >= total,
+            "complete_rounds_of_the_whole_enumeration": n / total,
+            "alphabet": {"server roles": 10, "client roles": 6},
+            "handler_modes": crate::families::C11X_MODES,
+        });
+    }
     if let Some(n) = fam_runs.get("C16X") {
         let total = crate::families::c16x_total();
         let le2 = crate::families::c16x_total_le2();
